@@ -25,7 +25,8 @@ INV = ["CallerCellsNeverWritten", "ResultsDisjointFromInputs", "ReuseGivesSameRe
        "LaterOverwriteDoesNotMoveModel", "ModelsNeverMove"]
 FAMILIES = ["kmeans", "gmm", "stats", "isv", "jfa", "ivector", "linear"]
 DEVS = [("KMEANS_INIT_ALIASED_AT_ZERO_ITER", "kmeans"), ("MAP_SHARES_PRIOR_ARRAYS", "gmm"),
-        ("SCORE_POOLS_IN_PLACE", "isv"), ("FIT_CENTRES_X_IN_PLACE", "linear"), ("IVECTOR_ESTEP_IN_PLACE", "ivector")]
+        ("SCORE_POOLS_IN_PLACE", "isv"), ("STATS_ADD_EMPTY_ALIASES_OPERAND", "stats"),
+        ("STATS_IADD_EMPTY_ADOPTS_OPERAND", "stats"), ("FIT_CENTRES_X_IN_PLACE", "linear"), ("IVECTOR_ESTEP_IN_PLACE", "ivector")]
 CELLS = ["X", "y", "init", "mm", "z", "s1n", "s1px", "s1pxx", "s2n", "s2px", "s2pxx", "pm", "pv", "pw"]
 NSTAT = 8
 OPS = ["KMeansFit", "KMeansTransform", "KMeansPredict", "KMeansVarWeights", "GmmFitML", "MapConstruct", "GmmFitMAP",
@@ -192,6 +193,15 @@ class World:
             return self.machine(m).transform(self.halves(form))
         if op == "GmmLogLikelihood":
             return self.machine(m).log_likelihood(self.arr(form))
+        if op == "StatsAdd" and arg:
+            # an empty container (zero statistics) as one operand: left (the seed of a sum) or right
+            empty = em.GMMStats(2, 2)
+            return (empty + self.stats[0]) if arg == 1 else (self.stats[0] + empty)
+        if op == "StatsIAdd" and arg:
+            acc = em.GMMStats(2, 2)
+            for t in self.stats:
+                acc += t
+            return acc
         if op == "StatsAdd":
             tot = self.stats[0] + self.stats[1]
             for s in self.stats[2:]:
